@@ -203,6 +203,15 @@ Theorem C17_poll_loops_complete :
 Proof. intros fast tail s outs o s' outs'. apply (results_never_out_of_fuel gen_tables _ gen_tables_ok). Qed.
 Print Assumptions C17_poll_loops_complete.
 
+(** the asynchronous wait run in one piece equals the same coroutine started and then resumed at each
+    of its await points (with nothing in between): same outcome, state, requests, consumed outcomes.
+    With other client events in between, theorems 1-5 apply to the interleaved event list. *)
+Theorem C17_async_wait_is_its_pieces :
+  forall s outs o s' outs', s_await s = false -> step gen_tables s Await outs = (o, s', outs') ->
+    await_in_pieces gen_tables s outs = (o, set_await s' false, outs').
+Proof. intros s outs o s' outs'. apply (await_split gen_tables _ gen_tables_ok). Qed.
+Print Assumptions C17_async_wait_is_its_pieces.
+
 (** non-vacuity: a concrete history with timeouts, a repeated 'active', an interleaved query at an
     await point, and calls after termination *)
 Example C17_instance :
